@@ -701,3 +701,45 @@ def to_real(v):
     if isinstance(v, VBool):
         return z3.If(v.t, z3.RealVal(1), z3.RealVal(0))
     raise TypeError("to_real %r" % (v,))
+
+
+def _nth_terms(body, var):
+    """subterms nth(s, var) / select(a, var) whose index is exactly the bound variable"""
+    out, seen, todo = [], set(), [body]
+    vid = var.get_id()
+    while todo:
+        x = todo.pop()
+        i = x.get_id()
+        if i in seen:
+            continue
+        seen.add(i)
+        if z3.is_quantifier(x):
+            continue
+        if z3.is_app(x):
+            nm = x.decl().name()
+            if nm in ("seq.nth", "select", "seq.nth_i") and x.num_args() == 2 and x.arg(1).get_id() == vid:
+                # the sequence argument itself must not contain other bound stuff we cannot see; accept
+                out.append(x)
+            todo.extend(x.children())
+    return out
+
+
+def forall(vs, body):
+    """ForAll with explicit alternative triggers on every seq.nth / select indexed by the bound variable
+    (z3's automatic pattern inference tends to pick a single, often useless, trigger)."""
+    try:
+        if len(vs) == 1:
+            pats = _nth_terms(body, vs[0])
+            uniq = []
+            for t in pats:
+                if not any(t.eq(u) for u in uniq):
+                    uniq.append(t)
+            if uniq:
+                return z3.ForAll(vs, body, patterns=uniq[:6])
+        elif len(vs) == 2:
+            a, b = _nth_terms(body, vs[0]), _nth_terms(body, vs[1])
+            if a and b:
+                return z3.ForAll(vs, body, patterns=[z3.MultiPattern(a[0], b[0])])
+    except z3.Z3Exception:
+        pass
+    return z3.ForAll(vs, body)
